@@ -53,6 +53,7 @@ type caseT struct {
 	Between  []purgex.Op  `json:"between"`
 	DryRun   bool         `json:"dry_run_first"`
 	Cycle2   *cycleT      `json:"cycle2,omitempty"`
+	SameDir  bool         `json:"same_work_dir,omitempty"` // every purge command uses one local work dir (the CLI default)
 	// index-time boundary: after the index was built (time T), unreferenced junk blobs are planted with update
 	// time T+offset (ns); BoundaryReal re-stamps the non-indexed blobs written by the between-uploads to T+BoundaryReal
 	Boundary     []int64 `json:"boundary_offsets_ns,omitempty"`
@@ -88,6 +89,7 @@ func drawCase(t *rapid.T) caseT {
 	case 7:
 		c.Junk = rapid.IntRange(1, 5).Draw(t, "njunk")
 	}
+	c.SameDir = rapid.Bool().Draw(t, "same_dir")
 	if rapid.IntRange(0, 3).Draw(t, "cycle2") == 2 {
 		c.Cycle2 = &cycleT{Ops: purgex.DrawOps(t, c.Shape, 1, 4, 2, "ncycle2"), Chunk: uint64(rapid.IntRange(1, 9).Draw(t, "chunk2")), Drop: rapid.IntRange(0, 3).Draw(t, "drop") == 1}
 	}
@@ -116,7 +118,7 @@ func purgeCycle(w *purgex.World, c caseT, chunk uint64, between []purgex.Op, dry
 	if chunk == 0 {
 		chunk = uint64(len(ref) + 1)
 	}
-	run := purgex.Run{Dir: w.Sc.Dir("kv"), Chunk: chunk, Parallel: c.Parallel}
+	run := purgex.Run{Dir: w.WorkDir(c.SameDir), Chunk: chunk, Parallel: c.Parallel}
 	if c.Ticker {
 		run.Ticker = time.Millisecond
 	}
@@ -198,7 +200,7 @@ func purgeCycle(w *purgex.World, c caseT, chunk uint64, between []purgex.Op, dry
 	before := w.BlobTimes()
 	if dry {
 		dr := run
-		dr.Dir = w.Sc.Dir("kv")
+		dr.Dir = w.WorkDir(c.SameDir)
 		dr.DryRun = true
 		if _, oc := w.DeleteUnused(dr); !oc.OK() {
 			return fmt.Errorf("delete-unused --dry-run failed without any fault: %s", oc)
@@ -209,7 +211,7 @@ func purgeCycle(w *purgex.World, c caseT, chunk uint64, between []purgex.Op, dry
 		}
 	}
 	del := run
-	del.Dir = w.Sc.Dir("kv")
+	del.Dir = w.WorkDir(c.SameDir)
 	pb, oc := w.DeleteUnused(del)
 	if !oc.OK() {
 		return fmt.Errorf("delete-unused failed without any fault: %s", oc)
